@@ -6,6 +6,9 @@
 //   - ProposalRouter.ApplyProposal (x/gov/types/router.go): the handler runs on ctx.CacheContext()
 //     and the cache is written only when the handler returned nil.
 //
+//   - processProposal (x/gov/abci.go): the branch taken on an IsQuorum error (panic / quorum not reached)
+//     and whether a dynamic-voter proposal rebuilds availableVoters from its allowed addresses.
+//
 // Output: coq/Gen/GovHandlers.v (definitions only).  Exit 2 on any other shape.
 package main
 
@@ -117,6 +120,62 @@ func main() {
 		}
 	}
 
+	// ---- processProposal (x/gov/abci.go): the branch taken when types.IsQuorum returns an error, and
+	// whether a dynamic-voter proposal rebuilds availableVoters (the veto-capable set) from its allowed addresses
+	h, err := parser.ParseFile(fset, filepath.Join(*repo, "x/gov/abci.go"), nil, 0)
+	if err != nil {
+		die("%v", err)
+	}
+	var pp *ast.FuncDecl
+	for _, d := range h.Decls {
+		if fd, ok := d.(*ast.FuncDecl); ok && fd.Recv == nil && fd.Name.Name == "processProposal" {
+			pp = fd
+		}
+	}
+	if pp == nil {
+		die("processProposal not found")
+	}
+	quorumPanics, quorumSeen := false, false
+	dynVeto, dynSeen := false, false
+	for i, st := range pp.Body.List {
+		if as, ok := st.(*ast.AssignStmt); ok && strings.HasPrefix(src(as), "isQuorum, err := types.IsQuorum(quorum, uint64(numVotes), uint64(totalVoters))") {
+			if i+1 >= len(pp.Body.List) {
+				die("processProposal: nothing after IsQuorum")
+			}
+			ifs, ok := pp.Body.List[i+1].(*ast.IfStmt)
+			if !ok || src(ifs.Cond) != "err != nil" || ifs.Else != nil || len(ifs.Body.List) == 0 {
+				die("processProposal: IsQuorum error branch %q", src(pp.Body.List[i+1]))
+			}
+			quorumSeen = true
+			body := ifs.Body.List
+			first, last := src(body[0]), src(body[len(body)-1])
+			switch {
+			case len(body) == 1 && strings.HasPrefix(first, "panic("):
+				quorumPanics = true
+			case last == "isQuorum = false" && !strings.Contains(src(ifs.Body), "panic(") && !strings.Contains(src(ifs.Body), "return"):
+				quorumPanics = false
+			default:
+				die("processProposal: IsQuorum error branch %q", src(ifs.Body))
+			}
+		}
+		if ifs, ok := st.(*ast.IfStmt); ok && src(ifs.Cond) == "content.VotePermission() == types.PermZero" && strings.Contains(src(ifs.Body), "totalVoters") {
+			dynSeen = true
+			b := src(ifs.Body)
+			oldShape := "{ router := k.GetProposalRouter() totalVoters = len(router.AllowedAddressesDynamicProposal(ctx, content)) if totalVoters == 0 { totalVoters = 1 } }"
+			newShape := "{ router := k.GetProposalRouter() allowedAddresses := router.AllowedAddressesDynamicProposal(ctx, content) totalVoters = len(allowedAddresses) if totalVoters == 0 { totalVoters = 1 } availableVoters = nil for _, allowed := range allowedAddresses { addr, err := sdk.AccAddressFromBech32(allowed) if err != nil { continue } if actor, found := k.GetNetworkActorByAddress(ctx, addr); found { availableVoters = append(availableVoters, actor) } } }"
+			switch b {
+			case oldShape:
+			case newShape:
+				dynVeto = true
+			default:
+				die("processProposal: dynamic-voter block %q", b)
+			}
+		}
+	}
+	if !quorumSeen || !dynSeen {
+		die("processProposal: IsQuorum call or dynamic-voter block not found")
+	}
+
 	var o strings.Builder
 	o.WriteString("(* GENERATED by /verif/harness/cmd/gen_govhandlers from x/gov/proposal_handler.go and x/gov/types/router.go -- do not edit *)\n")
 	o.WriteString("From Sekai Require Import Base.Prelude.\n")
@@ -124,6 +183,10 @@ func main() {
 	fmt.Fprintf(&o, "Definition durations_error_returned : bool := %v.\n", returned)
 	o.WriteString("(* ProposalRouter.ApplyProposal has the shape: cache context; Apply; write the cache iff err == nil; return err *)\n")
 	o.WriteString("Definition router_apply_on_cache_written_iff_ok : bool := true.\n")
+	o.WriteString("(* processProposal: does an error of types.IsQuorum panic (true) or count as quorum not reached (false)? *)\n")
+	fmt.Fprintf(&o, "Definition quorum_error_panics_flag : bool := %v.\n", quorumPanics)
+	o.WriteString("(* processProposal: are the veto-capable voters of a dynamic-voter proposal taken from its allowed addresses? *)\n")
+	fmt.Fprintf(&o, "Definition dynamic_veto_from_allowed : bool := %v.\n", dynVeto)
 	if err := os.WriteFile(*out, []byte(o.String()), 0o644); err != nil {
 		die("%v", err)
 	}
